@@ -320,7 +320,117 @@ def run_shard(job, shard, nshards, prop, seed, tag):
     return res
 
 
+def run_scale_job(job, prop, seed, tag):
+    """C15: one child process per (shape, N, stack, seed); verdict from exit status and counters."""
+    eng = job["engine"]
+    cmd0 = engine_cmd(eng)
+    env = engine_env(eng)
+    cases = [(sh, n, st, sd) for (sh, n) in job["sizes"] for st in job["stacks"] for sd in job.get("seeds", [seed])]
+    timeout = 900 if eng == "e3" else 300
+
+    def one(case):
+        sh, n, st, sd = case
+        r = ShardResult()
+        r.processes = 1
+        extra = ["--light"] if eng == "e3" else []
+        t0 = time.time()
+        try:
+            p = subprocess.run(cmd0 + ["scale", "--shape", sh, "--n", str(n), "--stack-kib", str(st), "--seed", str(sd)] + extra,
+                               cwd=HARNESS, env=env, stdout=subprocess.PIPE, stderr=subprocess.PIPE, text=True, timeout=timeout)
+        except subprocess.TimeoutExpired:
+            r.inconclusive.append({"why": "scale run %s n=%d timed out (engine %s)" % (sh, n, eng)})
+            return r
+        coord = "scale shape=%s n=%d stack_kib=%d seed=%d engine=%s" % (sh, n, st, sd, eng)
+        data = None
+        for line in p.stdout.splitlines():
+            if line.startswith("SCALE {"):
+                data = json.loads(line[6:])
+        problems = []
+        if p.returncode != 0 or data is None:
+            kind, detail = classify_death(p.returncode, p.stderr[-4000:])
+            problems.append("child did not complete (%s: %s)" % (kind, detail))
+        else:
+            pairs, lb = data["pairs"], data["loopbacks"]
+            if data["traces"] != 1:
+                problems.append("%d traces for one drop" % data["traces"])
+            if data["expansions"] > n:
+                problems.append("%d objects expanded for a group of %d (an object is visited more than once)" % (data["expansions"], n))
+            if data["pops"] > pairs + 1:
+                problems.append("%d worklist pops for %d distinct adoption pairs" % (data["pops"], pairs))
+            if data["entries"] > 2 * pairs + lb:
+                problems.append("%d table entries scanned, bound %d" % (data["entries"], 2 * pairs + lb))
+            if data["group_members"] != n or data["drops"] != n:
+                problems.append("group of %d: %d members torn down, %d destructors ran" % (n, data["group_members"], data["drops"]))
+            if data["max_depth"] > 1:
+                problems.append("destructor nesting depth %d while destroying group members (must stay 1)" % data["max_depth"])
+        s = {"histories": 1, "nontrivial": 1, "distinct_nontrivial": 1,
+             "samples": [coord + " -> " + (json.dumps(data) if data else "no result")],
+             "extra": {"scale_runs": 1, "objects_collected": (data or {}).get("drops", 0), "max_n": 0}}
+        if data:
+            s["extra"]["collect_ms_total"] = data["collect_ms"]
+            s["stats"] = {"begins": data["drops"], "nested_depth_max": data["max_depth"]}
+            s["paths"] = {"traces": data["traces"], "pops": data["pops"], "expansions": data["expansions"], "entries": data["entries"], "group": 1, "group_members": data["group_members"]}
+        r.summary = s
+        r.scale_row = dict(data or {}, engine=eng, wall_s=round(time.time() - t0, 2))
+        for pr in problems:
+            r.violations.append({"kind": "violation", "prop": "C15", "rule": "scale", "hard": False, "msg": pr + " [" + coord + "]",
+                                 "coord": coord, "class": "FULL", "engine": eng, "known_sig": "", "ops": "",
+                                 "job_args": ["scale", "--shape", sh, "--n", str(n), "--stack-kib", str(st), "--seed", str(sd)],
+                                 "log": (p.stderr or "").splitlines()[-20:], "scale": True})
+        return r
+
+    workers = 4 if eng == "e1" else NCPU
+    with ThreadPoolExecutor(max_workers=workers) as ex:
+        return list(ex.map(one, cases))
+
+
+def run_miri_child_job(job, prop, seed, tag):
+    """C16 under Miri: the scenario runs directly under the interpreter (it cannot spawn children)."""
+    cmd0 = engine_cmd("e3")
+    env = engine_env("e3")
+
+    def one(i):
+        r = ShardResult()
+        r.processes = 1
+        try:
+            p = subprocess.run(cmd0 + ["child", "--mode", "deadclone", "--idx", str(i), "--seed", str(seed), "--light"],
+                               cwd=HARNESS, env=env, stdout=subprocess.PIPE, stderr=subprocess.PIPE, text=True, timeout=600)
+        except subprocess.TimeoutExpired:
+            r.inconclusive.append({"why": "miri child %d timed out" % i})
+            return r
+        out, err = p.stdout, p.stderr
+        before = "BEFORE-CLONE" in out
+        after = "AFTER-CLONE" in out
+        desc = next((l[11:] for l in out.splitlines() if l.startswith("CHILD-DESC ")), "")
+        ops = next((l[10:] for l in out.splitlines() if l.startswith("CHILD-OPS ")), "")
+        coord = "deadclone(miri) seed=%d idx=%d [%s]" % (seed, i, desc)
+        s = {"histories": 1, "nontrivial": 1 if before else 0, "distinct_nontrivial": 1 if before else 0,
+             "samples": [coord + " :: " + ops], "stats": {"dead_clones_attempted": 1 if before else 0}}
+        r.summary = s
+        bad = None
+        if before:
+            aborted = "the program aborted execution" in err or "abnormal termination" in err
+            if after or not aborted:
+                bad = "under Miri, cloning a handle to a destroyed object did not abort (AFTER-CLONE printed: %s; rc %s; %s)" % (after, p.returncode, classify_death(p.returncode, err)[1])
+        else:
+            if p.returncode != 0:
+                kind, detail = classify_death(p.returncode, err)
+                bad = "scenario without a dead clone did not complete under Miri (%s: %s)" % (kind, detail)
+        if bad:
+            r.violations.append({"kind": "violation", "prop": "C16", "rule": "deadclone", "hard": True, "msg": bad, "coord": coord,
+                                 "class": "DEAD", "engine": "e3", "known_sig": "", "ops": ops, "log": err.splitlines()[-30:],
+                                 "job_args": ["child", "--mode", "deadclone", "--idx", str(i), "--seed", str(seed)], "child": True})
+        return r
+
+    with ThreadPoolExecutor(max_workers=NCPU) as ex:
+        return list(ex.map(one, range(job["count"])))
+
+
 def run_job(job, prop, seed, tag):
+    if job.get("kind") == "scale":
+        return run_scale_job(job, prop, seed, tag)
+    if job.get("kind") == "miri-child":
+        return run_miri_child_job(job, prop, seed, tag)
     nshards = job.get("shards", NCPU)
     results = []
     with ThreadPoolExecutor(max_workers=nshards) as ex:
@@ -395,8 +505,9 @@ def cmd_check(prop, tier, seed):
                     own.append(v)
         merge_num(total, js)
         per_job.append({
-            "label": job["label"], "engine": job["engine"], "class": job.get("class"), "args": " ".join(job["args"]),
-            "index_range": [job["lo"], job["hi"]], "histories": js.get("histories", 0), "nontrivial": js.get("nontrivial", 0),
+            "label": job["label"], "engine": job["engine"], "class": job.get("class"), "args": " ".join(job["args"]) or job.get("kind", ""),
+            "scale_table": [getattr(r, "scale_row") for r in rs if hasattr(r, "scale_row")] or None,
+            "index_range": [job.get("lo", 0), job.get("hi", 0)], "histories": js.get("histories", 0), "nontrivial": js.get("nontrivial", 0),
             "reported": jv, "exhausted_range": all(r.exhausted for r in rs), "wall_s": round(time.time() - tj, 1),
         })
         log("  job %-28s engine=%s histories=%d nontrivial=%d reported=%d (%.1fs)" % (
@@ -457,6 +568,9 @@ def cmd_check(prop, tier, seed):
         "wall_s": wall,
         "violations": len(own),
     }
+    if plan.get("translation"):
+        ev["coverage"]["programs"] = evaluations
+        ev["coverage"]["disagreements_checked"] = len(own)
     os.makedirs(os.path.join(VERIF, "evidence"), exist_ok=True)
     with open(os.path.join(VERIF, "evidence", "%s.json" % prop), "w") as f:
         json.dump(ev, f, indent=1)
@@ -495,7 +609,9 @@ def cmd_replay(path):
     build_engine(eng)
     cmd = engine_cmd(eng)
     env = engine_env(eng)
-    if v.get("ops"):
+    if v.get("scale") or v.get("child"):
+        args = list(v["job_args"])
+    elif v.get("ops"):
         args = ["replay", "--class", v.get("class", "WF"), "--ops", v["ops"], "--layout-seed", str(v.get("layout_seed", 1)),
                 "--alloc", {0: "plain", 1: "quar", 2: "scatter"}.get(v.get("alloc_mode", 0), "plain")]
     else:
